@@ -1367,6 +1367,264 @@ Proof.
 Qed.
 
 (* ------------------------------------------------------------------------------------------------ *)
+(* C18, codec layer, compressed arrays: a truncated stored string is rejected (or yields no data)     *)
+(* ------------------------------------------------------------------------------------------------ *)
+Lemma split_fuel_mono {A} (w : N) : 0 < w -> forall f (l : list A) f', (length l <= f)%nat -> (length l <= f')%nat ->
+  split_fuel f w l = split_fuel f' w l.
+Proof.
+  intros Hw. induction f as [|f IH]; intros l f' H1 H2.
+  - destruct l; [destruct f'; reflexivity|simpl in H1; lia].
+  - destruct l as [|a l]; [destruct f'; reflexivity|].
+    destruct f' as [|f']; [simpl in H2; lia|].
+    cbn [split_fuel]. destruct (lenN (a :: l) <? w); [reflexivity|].
+    assert (L : lenN (dropN w (a :: l)) = lenN (a :: l) - w) by apply dropN_length.
+    rewrite lenN_cons in L. unfold lenN in L. cbn [length] in H1, H2.
+    rewrite (IH (dropN w (a :: l)) f') by lia. reflexivity.
+Qed.
+
+Lemma splitN_app_word {A} (w : N) (W l : list A) : 0 < w -> lenN W = w ->
+  splitN w (W ++ l) = option_map (cons W) (splitN w l).
+Proof.
+  intros Hw HW. unfold splitN. destruct W as [|a W]; [rewrite lenN_nil in HW; lia|].
+  cbn [app length split_fuel]. change (a :: W ++ l) with ((a :: W) ++ l).
+  destruct (N.ltb_spec (lenN ((a :: W) ++ l)) w) as [C|C]; [rewrite lenN_app in C; lia|].
+  rewrite <- HW, takeN_app_len, dropN_app_len, HW.
+  rewrite (split_fuel_mono w Hw (length (W ++ l)) l (length l)); [reflexivity| |lia].
+  rewrite app_length. lia.
+Qed.
+
+Lemma splitN_short {A} (w : N) (l : list A) : l <> [] -> lenN l < w -> splitN w l = None.
+Proof.
+  intros Hne Hl. unfold splitN. destruct l as [|a l]; [congruence|]. cbn [length split_fuel].
+  destruct (N.ltb_spec (lenN (a :: l)) w); [reflexivity|lia].
+Qed.
+
+(* the words of a prefix of a header: an error (cut inside a word) or the first j words *)
+Lemma ints_of_prefix bo h : forall ints a' s, Forall (fun n => n < hbound h) ints ->
+  header_bytes bo h ints = a' ++ s ->
+  ints_of bo (hsize h) a' = None \/
+  exists j, ints_of bo (hsize h) a' = Some (firstn j ints) /\ (j <= length ints)%nat /\ (s <> [] -> (j < length ints)%nat).
+Proof.
+  induction ints as [|i ints IH]; intros a' s Hb He.
+  - unfold header_bytes in He. simpl in He. symmetry in He. apply app_eq_nil in He. destruct He as [-> ->].
+    right. exists 0%nat. repeat split; [lia|congruence].
+  - apply Forall_cons_iff in Hb. destruct Hb as [Hi Hb].
+    unfold header_bytes in He. cbn [map concat] in He. fold (header_bytes bo h ints) in He.
+    set (W := int_to_bytes bo (hsz h) i) in *.
+    assert (LW : lenN W = hsize h) by apply lenN_int_to_bytes.
+    destruct a' as [|c a'].
+    + right. exists 0%nat. repeat split; [simpl; lia|simpl; lia].
+    + destruct (N.lt_ge_cases (lenN (c :: a')) (hsize h)) as [Hs|Hl].
+      * left. unfold ints_of, words. rewrite splitN_short; [reflexivity|discriminate|exact Hs].
+      * (* a' starts with the whole word *)
+        apply app_eq_app in He. destruct He as [l [[H1 H2]|[H1 H2]]].
+        -- (* W = (c :: a') ++ l : only possible with l = [] *)
+           assert (l = []).
+           { apply lenN_zero. rewrite H1, lenN_app in LW. lia. }
+           subst l. rewrite app_nil_r in H1. cbn [app] in H2. subst s.
+           destruct (IH [] (header_bytes bo h ints) Hb eq_refl) as [Hn|[j [Hj [Hle Hlt]]]].
+           ++ unfold ints_of, words, splitN in Hn. simpl in Hn. discriminate.
+           ++ right. exists 1%nat. rewrite <- H1. unfold ints_of, words.
+              rewrite <- (app_nil_r W). rewrite splitN_app_word by (try apply hsize_pos; exact LW).
+              unfold splitN. cbn [length split_fuel option_map map firstn]. unfold W. rewrite int_bytes_roundtrip by exact Hi.
+              repeat split; [simpl; lia|]. intros Hne. destruct ints; [unfold header_bytes in Hne; simpl in Hne; congruence|simpl; lia].
+        -- rewrite H1. destruct (IH l s Hb H2) as [Hn|[j [Hj [Hle Hlt]]]].
+           ++ left. unfold ints_of, words in *. rewrite splitN_app_word by (try apply hsize_pos; exact LW).
+              destruct (splitN (hsize h) l); [discriminate|reflexivity].
+           ++ right. exists (S j). unfold ints_of, words in *. rewrite splitN_app_word by (try apply hsize_pos; exact LW).
+              destruct (splitN (hsize h) l) as [ws|]; [|discriminate]. cbn [option_map map firstn] in *.
+              inversion Hj as [Hj']. unfold W. rewrite int_bytes_roundtrip by exact Hi.
+              repeat split; [simpl; lia|intros Hne; specialize (Hlt Hne); simpl; lia].
+Qed.
+
+Lemma decode_proper_prefix e a q r : wf a -> encode e a = q ++ r -> r <> [] ->
+  decode e q = None \/ exists a' s, decode e q = Some a' /\ a = a' ++ s /\ s <> [].
+Proof.
+  intros Hwf He Hr. destruct e; cbn [encode decode] in *.
+  - right. exists q, r. auto.
+  - destruct (b64dec_proper_prefix a Hwf q r He Hr) as [Hn|[k [Hk Hlt]]]; [left; exact Hn|right].
+    exists (takeN (3 * k) a), (dropN (3 * k) a). split; [exact Hk|]. split; [symmetry; apply takeN_dropN|].
+    intro C. pose proof (dropN_length a (3 * k)) as L. rewrite C, lenN_nil in L. lia.
+Qed.
+
+Lemma decode_nil e : decode e [] = Some [].
+Proof. destruct e; reflexivity. Qed.
+
+Lemma sumN_firstn_le l : forall j, sumN (firstn j l) <= sumN l.
+Proof. induction l as [|x l IH]; intros [|j]; simpl; try lia. specialize (IH j). lia. Qed.
+
+Section TruncatedCompressed.
+  Variable compress : bytes -> bytes.
+  Variable decompress : N -> bytes -> option bytes.
+  Variable empty_ok : bool.
+  Variable bs : N.
+  (* the decompressor rejects an incomplete block (zlib, lzma: "incomplete stream"; an assumption about the library) *)
+  Hypothesis decompress_rejects_prefix : forall b q, wf b -> proper_prefix q (compress b) -> decompress bs q = None.
+  Hypothesis decompress_rejects_empty : decompress bs [] = None.
+
+  Lemma blocks_truncated : forall bl dd rr, Forall wf bl -> rr <> [] -> dd ++ rr = concat (map compress bl) ->
+    blocks decompress bs (map lenN (map compress bl)) dd = None.
+  Proof.
+    induction bl as [|b bl IH]; intros dd rr Hw Hr He.
+    - simpl in He. apply app_eq_nil in He. destruct He; congruence.
+    - apply Forall_cons_iff in Hw. destruct Hw as [Hb Hbl].
+      cbn [map concat blocks] in *. set (c := compress b) in *.
+      apply app_eq_app in He. destruct He as [l [[H1 H2]|[H1 H2]]].
+      + (* dd = c ++ l *)
+        subst dd. rewrite takeN_app_len, dropN_app_len.
+        destruct (decompress bs c); [|reflexivity]. rewrite (IH l rr Hbl Hr (eq_sym H2)). reflexivity.
+      + (* c = dd ++ l *)
+        destruct l as [|a l].
+        * rewrite app_nil_r in H1. subst dd. cbn [app] in H2.
+          rewrite takeN_len_self. rewrite dropN_all by lia.
+          destruct (decompress bs c); [|reflexivity].
+          rewrite (IH [] rr Hbl Hr); [reflexivity|]. cbn [app]. exact H2.
+        * assert (T : takeN (lenN c) dd = dd).
+          { apply takeN_all. rewrite H1, lenN_app. lia. }
+          rewrite T. rewrite (decompress_rejects_prefix b dd Hb); [reflexivity|].
+          exists (a :: l). split; [discriminate|exact H1].
+  Qed.
+
+  Definition rejected (res : option bytes) : Prop := match res with None => True | Some y => y = [] end.
+
+  Theorem truncated_compressed_rejected bo h e hsep x p :
+    wf x -> 0 < bs -> bs < hbound h ->
+    (forall b, wf b -> wf (compress b)) ->
+    lenN (chunks bs x) < hbound h ->
+    lenN (concat (map compress (chunks bs x))) < hbound h ->
+    proper_prefix p (enc_array compress bo h (Some bs) e hsep x) ->
+    rejected (read_compressed decompress empty_ok bo h e p).
+  Proof.
+    intros Hwf Hbs Hbsb Hcw Hnb Hsum [r [Hr Hp]].
+    set (bl := chunks bs x) in *. set (cs := map compress bl) in *.
+    set (sizes := map lenN cs).
+    set (h3 := header_bytes bo h [lenN cs; bs; lenN x mod bs]).
+    set (hz := header_bytes bo h sizes).
+    set (d := concat cs) in *.
+    assert (Wbl : Forall wf bl) by (apply wf_chunks; exact Hwf).
+    assert (Wd : wf d).
+    { unfold d, cs. apply wf_concat. apply Forall_forall. intros c Hc. apply in_map_iff in Hc.
+      destruct Hc as [b [<- Hb]]. apply Hcw. rewrite Forall_forall in Wbl. apply Wbl. exact Hb. }
+    assert (Lcs : lenN cs = lenN bl) by (unfold cs, lenN; rewrite map_length; reflexivity).
+    assert (Ssum : sumN sizes = lenN d) by (unfold sizes; apply sumN_map_lenN).
+    assert (Lh3 : lenN h3 = 3 * hsize h).
+    { unfold h3. rewrite lenN_header_bytes. rewrite !lenN_cons, lenN_nil. lia. }
+    assert (Lhz : lenN hz = lenN cs * hsize h).
+    { unfold hz. rewrite lenN_header_bytes. unfold sizes, lenN. rewrite map_length. apply N.mul_comm. }
+    assert (Bh3 : Forall (fun n => n < hbound h) [lenN cs; bs; lenN x mod bs]) by (repeat constructor; lia).
+    assert (Bsz : Forall (fun n => n < hbound h) sizes) by (apply sumN_bound; rewrite Ssum; exact Hsum).
+    assert (E : enc_array compress bo h (Some bs) e hsep x = encode e h3 ++ encode e hz ++ encode e d).
+    { unfold enc_array, enc_segments. fold bl. fold cs. fold d. fold sizes.
+      rewrite header_bytes_app. fold h3. fold hz.
+      assert (M3 : lenN h3 mod 3 = 0) by (rewrite Lh3, N.mul_comm; apply N.mod_mul; discriminate).
+      destruct e.
+      - cbn [encode]. rewrite <- !app_assoc. reflexivity.
+      - cbn [encode]. rewrite (b64enc_app_mult3 h3 M3). rewrite <- !app_assoc. reflexivity. }
+    rewrite E in Hp. clear E.
+    assert (Eh : encoded_bytes e (3 * hsize h) = lenN (encode e h3)) by (rewrite encoded_bytes_is_length, Lh3; reflexivity).
+    assert (Ez : encoded_bytes e (lenN cs * hsize h) = lenN (encode e hz)) by (rewrite encoded_bytes_is_length, Lhz; reflexivity).
+    assert (Hpos : 0 < hbound h) by (unfold hbound; apply N.neq_0_lt_0; apply N.pow_nonzero; discriminate).
+    (* the end of every branch in which no (or an empty list of) block sizes is left *)
+    assert (Fin0 : forall dd, rejected (uncompress_blocks decompress empty_ok h bs [] dd)).
+    { intros dd. unfold uncompress_blocks. cbn [sumN]. destruct (hbound h <=? 0); [exact I|]. destruct empty_ok; simpl; auto. }
+    assert (Cases : (exists l, l <> [] /\ encode e h3 = p ++ l) \/
+                    (exists q, p = encode e h3 ++ q /\ q ++ r = encode e hz ++ encode e d)).
+    { apply app_eq_app in Hp. destruct Hp as [l [[H1 H2]|[H1 H2]]].
+      - destruct l as [|c0 l].
+        + right. exists []. rewrite app_nil_r in H1. rewrite app_nil_r. split; [symmetry; exact H1|exact H2].
+        + left. exists (c0 :: l). split; [discriminate|exact H1].
+      - right. exists l. split; [exact H1|symmetry; exact H2]. }
+    destruct Cases as [[l [Hl H1]]|[q [Hq Hqr]]].
+    - (* A: the cut is inside the three-word header *)
+      assert (Lp : lenN p < lenN (encode e h3)).
+      { rewrite H1, lenN_app. destruct l; [congruence|rewrite lenN_cons; lia]. }
+      unfold read_compressed, read_header. cbv zeta. rewrite Eh.
+      rewrite (takeN_all p) by lia.
+      destruct (decode_proper_prefix e h3 p l (wf_header_bytes _ _ _) H1 Hl) as [Hn|[a' [s [Ha [Hs Hsne]]]]].
+      { rewrite Hn. exact I. }
+      rewrite Ha.
+      assert (La : lenN a' < 3 * hsize h).
+      { rewrite <- Lh3, Hs, lenN_app. destruct s; [congruence|rewrite lenN_cons; lia]. }
+      rewrite (takeN_all a') by lia.
+      destruct (ints_of_prefix bo h _ a' s Bh3 Hs) as [Hn|[j [Hj [Hle Hlt]]]].
+      { rewrite Hn. exact I. }
+      rewrite Hj. specialize (Hlt Hsne). simpl in Hlt.
+      destruct j as [|[|[|j]]]; try lia; cbn [firstn].
+      + exact I.
+      + rewrite (dropN_all p) by lia. cbn [takeN]. rewrite decode_nil. cbn [takeN].
+        unfold ints_of, words, splitN. simpl. exact I.
+      + rewrite (dropN_all p) by lia. cbn [takeN]. rewrite decode_nil. cbn [takeN].
+        unfold ints_of, words, splitN. cbn [length split_fuel option_map map app skipn sumN].
+        rewrite (dropN_all p) by lia. cbn [takeN]. rewrite decode_nil. apply Fin0.
+    - (* B: the three-word header is complete *)
+      subst p.
+      assert (Hhdr : read_header bo h e (encode e h3 ++ q) =
+                     match decode e (takeN (lenN (encode e hz)) q) with
+                     | None => None
+                     | Some d2 => match ints_of bo (hsize h) (takeN (lenN (encode e hz)) d2) with
+                                  | None => None
+                                  | Some sz => Some ([lenN cs; bs; lenN x mod bs] ++ sz, lenN (encode e h3) + lenN (encode e hz))
+                                  end
+                     end).
+      { unfold read_header. cbv zeta. rewrite Eh.
+        rewrite takeN_app_len. rewrite decode_encode by apply wf_header_bytes.
+        rewrite (takeN_all h3) by lia. unfold h3 at 1. rewrite ints_of_header by exact Bh3.
+        rewrite dropN_app_len. rewrite Ez. reflexivity. }
+      unfold read_compressed. rewrite Hhdr. clear Hhdr.
+      apply app_eq_app in Hqr. destruct Hqr as [l2 [[H1 H2]|[H1 H2]]].
+      + (* q = E hz ++ l2 and E d = l2 ++ r : the cut is inside the data (B2) *)
+        subst q. rewrite takeN_app_len. rewrite decode_encode by apply wf_header_bytes.
+        rewrite (takeN_all hz) by (rewrite <- Ez, Lhz; apply encoded_bytes_ge).
+        unfold hz at 1. rewrite ints_of_header by exact Bsz.
+        cbn [app skipn]. rewrite Ssum.
+        replace (encode e h3 ++ encode e hz ++ l2) with ((encode e h3 ++ encode e hz) ++ l2) by (rewrite <- app_assoc; reflexivity).
+        rewrite (dropN_app_len' (encode e h3 ++ encode e hz)) by (rewrite lenN_app; reflexivity).
+        assert (Ll2 : lenN l2 < lenN (encode e d)).
+        { rewrite H2, lenN_app. destruct r; [congruence|rewrite lenN_cons; lia]. }
+        rewrite (takeN_all l2) by (rewrite <- encoded_bytes_is_length; lia).
+        destruct (decode_proper_prefix e d l2 r Wd H2 Hr) as [Hn|[dd [s [Hd [Hs Hsne]]]]].
+        { rewrite Hn. exact I. }
+        rewrite Hd. unfold uncompress_blocks. destruct (hbound h <=? sumN sizes); [exact I|].
+        assert (Hb : blocks decompress bs sizes dd = None).
+        { unfold sizes, cs. apply (blocks_truncated bl dd s Wbl Hsne). symmetry. exact Hs. }
+        destruct sizes; [destruct empty_ok; simpl; auto|]. rewrite Hb. exact I.
+      + (* E hz = q ++ l2 *)
+        destruct l2 as [|c0 l2].
+        * (* q is exactly the encoded size table and nothing of the data is left *)
+          rewrite app_nil_r in H1. subst q. cbn [app] in H2.
+          rewrite takeN_len_self. rewrite decode_encode by apply wf_header_bytes.
+          rewrite (takeN_all hz) by (rewrite <- Ez, Lhz; apply encoded_bytes_ge).
+          unfold hz at 1. rewrite ints_of_header by exact Bsz.
+          cbn [app skipn]. rewrite Ssum.
+          rewrite dropN_all by (rewrite lenN_app; lia). cbn [takeN]. rewrite decode_nil.
+          unfold uncompress_blocks. destruct (hbound h <=? sumN sizes); [exact I|].
+          assert (Hb : blocks decompress bs sizes [] = None).
+          { assert (Hdne : d <> []).
+            { intro C. rewrite C in H2. destruct e; simpl in H2; congruence. }
+            unfold sizes, cs. apply (blocks_truncated bl [] d Wbl Hdne). reflexivity. }
+          destruct sizes; [destruct empty_ok; simpl; auto|]. rewrite Hb. exact I.
+        * (* the cut is inside the size table (B1) *)
+          assert (Hl2 : c0 :: l2 <> []) by discriminate.
+          assert (Lq : lenN q < lenN (encode e hz)) by (rewrite H1, lenN_app, lenN_cons; lia).
+          rewrite (takeN_all q) by lia.
+          destruct (decode_proper_prefix e hz q (c0 :: l2) (wf_header_bytes _ _ _) H1 Hl2) as [Hn|[a' [s [Ha [Hs Hsne]]]]].
+          { rewrite Hn. exact I. }
+          rewrite Ha.
+          assert (La : lenN a' <= lenN (encode e hz)).
+          { pose proof (encoded_bytes_ge e (lenN hz)) as G. rewrite <- encoded_bytes_is_length in G.
+            assert (lenN hz = lenN a' + lenN s) by (rewrite Hs at 1; apply lenN_app). lia. }
+          rewrite (takeN_all a') by exact La.
+          destruct (ints_of_prefix bo h sizes a' s Bsz Hs) as [Hn|[j [Hj [Hle Hlt]]]].
+          { rewrite Hn. exact I. }
+          rewrite Hj. cbn [app skipn].
+          rewrite dropN_all by (rewrite lenN_app; lia). cbn [takeN]. rewrite decode_nil.
+          unfold uncompress_blocks. destruct (hbound h <=? sumN (firstn j sizes)); [exact I|].
+          destruct (firstn j sizes) as [|c1 rest]; [destruct empty_ok; simpl; auto|].
+          cbn [blocks takeN]. rewrite decompress_rejects_empty. exact I.
+  Qed.
+End TruncatedCompressed.
+
+(* ------------------------------------------------------------------------------------------------ *)
 (* tables: structure of the written csv file                                                          *)
 (* ------------------------------------------------------------------------------------------------ *)
 Definition clean (f : bytes) : Prop := f <> [] /\ ~ In comma f /\ ~ In newline f.
